@@ -302,3 +302,321 @@ Proof.
   cbn [forallb] in H. apply andb_true_iff in H. destruct H as [Hr Hrs].
   unfold js_escape in *. cbn [flat_map]. rewrite js_tok_alpha by exact Hr. exact (IH Hrs).
 Qed.
+
+(* ------------------------------------------------------------------ *)
+(* CSS: every token is non-NUL ASCII                                    *)
+(* ------------------------------------------------------------------ *)
+
+Lemma alnum_r_lt r : is_alnum_r r = true -> 0 < r /\ r < 128.
+Proof. unfold is_alnum_r, btw. lia. Qed.
+
+Lemma css_tok_ascii r : forallb ascii_nz (css_tok r) = true.
+Proof.
+  unfold css_tok.
+  destruct (r =? 13); [reflexivity|]. destruct (r =? 10); [reflexivity|].
+  destruct (r =? 9); [reflexivity|]. destruct (r =? 0); [reflexivity|].
+  destruct (r =? 32); [reflexivity|].
+  destruct (is_alnum_r r) eqn:Hp.
+  { apply alnum_r_lt in Hp. cbn [forallb]. unfold ascii_nz. rewrite b2n_n2b by lia. lia. }
+  cbn [forallb]. rewrite forallb_app.
+  rewrite (forallb_impl _ _ _ lo_hex_ascii (hex_lo_all_lo_hex r)). reflexivity.
+Qed.
+
+Lemma css_escape_ascii rs : forallb ascii_nz (css_escape rs) = true.
+Proof. apply forallb_flat_map, css_tok_ascii. Qed.
+
+(* ------------------------------------------------------------------ *)
+(* CSS: decoder steps                                                   *)
+(* ------------------------------------------------------------------ *)
+
+(* inside an escape: the remaining digits, then the terminating space *)
+Lemma css_hex_run rest ds : forall acc k v,
+  parse_hex_acc acc ds = Some v -> (length ds <= k)%nat ->
+  css_run (CsHex acc k) (map b2n ds ++ 32 :: rest) = css_cp v :: css_run CsText rest.
+Proof.
+  induction ds as [|d ds IH]; intros acc k v Hp Hk.
+  - cbn [parse_hex_acc] in Hp. injection Hp as Hp. subst v.
+    cbn [map app css_run]. change (hexv 32) with (@None N). change (css_ws 32) with true.
+    destruct k; reflexivity.
+  - cbn [parse_hex_acc] in Hp. destruct (hex_val d) as [x|] eqn:Hd; [|discriminate].
+    cbn [length] in Hk. destruct k as [|k]; [lia|].
+    cbn [map app css_run]. rewrite hexv_b2n, Hd. apply IH; [exact Hp|lia].
+Qed.
+
+(* a whole escape: backslash, 1..6 hex digits, one space *)
+Lemma css_esc_run rest d ds v :
+  parse_hex_acc 0 (d :: ds) = Some v -> (length ds <= 5)%nat ->
+  css_run CsText (92 :: map b2n (d :: ds) ++ 32 :: rest) = css_cp v :: css_run CsText rest.
+Proof.
+  intros Hp Hk. cbn [parse_hex_acc] in Hp. destruct (hex_val d) as [x|] eqn:Hd; [|discriminate].
+  change (0 * 16 + x) with x in Hp.
+  cbn [map app css_run]. change (92 =? 92) with true. cbv iota.
+  rewrite hexv_b2n, Hd. apply css_hex_run; assumption.
+Qed.
+
+Lemma css_raw_run c rest : (c =? 92) = false -> css_run CsText (c :: rest) = c :: css_run CsText rest.
+Proof. intros H. cbn [css_run]. rewrite H. reflexivity. Qed.
+
+Lemma css_cp_scalar r : is_scalar r = true -> r <> 0 -> css_cp r = r.
+Proof.
+  unfold is_scalar, css_cp, btw. intros Hs Hz.
+  replace ((r =? 0) || ((55296 <=? r) && (r <=? 57343)) || (1114111 <? r)) with false by lia.
+  reflexivity.
+Qed.
+
+(* the token lemma: the tail is arbitrary *)
+Lemma css_tok_dec r rest :
+  is_scalar r = true -> r <> 0 ->
+  css_run CsText (map b2n (css_tok r) ++ rest) = r :: css_run CsText rest.
+Proof.
+  intros Hs Hz. unfold css_tok.
+  destruct (r =? 13) eqn:E1.
+  { apply N.eqb_eq in E1. subst r. exact (css_esc_run rest "D"%byte [] 13 eq_refl (Nat.le_0_l _)). }
+  destruct (r =? 10) eqn:E2.
+  { apply N.eqb_eq in E2. subst r. exact (css_esc_run rest "A"%byte [] 10 eq_refl (Nat.le_0_l _)). }
+  destruct (r =? 9) eqn:E3.
+  { apply N.eqb_eq in E3. subst r. exact (css_esc_run rest "9"%byte [] 9 eq_refl (Nat.le_0_l _)). }
+  destruct (r =? 0) eqn:E4; [lia|].
+  destruct (r =? 32) eqn:E5.
+  { apply N.eqb_eq in E5. subst r.
+    refine (css_esc_run rest "2"%byte ["0"%byte] 32 eq_refl _). cbn [length]. lia. }
+  destruct (is_alnum_r r) eqn:Hp.
+  { pose proof (alnum_r_lt r Hp) as [Hlo Hhi]. cbn [map app]. rewrite b2n_n2b by lia.
+    apply css_raw_run. unfold is_alnum_r, btw in Hp. lia. }
+  assert (Hlt : r < 16777216) by (unfold is_scalar in Hs; lia).
+  pose proof (parse_hex_acc_hex_lo r Hlt) as Hparse.
+  pose proof (hex_lo_length r) as Hlen.
+  destruct (hex_lo r) as [|d ds] eqn:Ehl.
+  { exfalso. cbn [length] in Hlen.
+    repeat match type of Hlen with _ = (if ?c then _ else _) => destruct c end; discriminate. }
+  assert (Hds : (length ds <= 5)%nat).
+  { cbn [length] in Hlen.
+    repeat match type of Hlen with _ = (if ?c then _ else _) => destruct c end; lia. }
+  replace (map b2n (BSL :: (d :: ds) ++ [" "%byte]) ++ rest)
+    with (92 :: map b2n (d :: ds) ++ 32 :: rest).
+  2:{ cbn [map app]. rewrite map_app, <- app_assoc. reflexivity. }
+  rewrite (css_esc_run rest d ds r Hparse Hds). rewrite css_cp_scalar by assumption. reflexivity.
+Qed.
+
+Theorem css_runes_roundtrip rs :
+  forallb is_scalar rs = true -> forallb nonzero rs = true ->
+  css_unescape_runes (map b2n (css_escape rs)) = rs.
+Proof.
+  unfold css_unescape_runes.
+  induction rs as [|r rs IH]; intros H Hz; [reflexivity|].
+  cbn [forallb] in H, Hz. apply andb_true_iff in H. destruct H as [Hr Hrs].
+  apply andb_true_iff in Hz. destruct Hz as [Hrz Hrsz].
+  unfold css_escape in *. cbn [flat_map]. rewrite map_app.
+  rewrite css_tok_dec; [|exact Hr|unfold nonzero in Hrz; lia].
+  rewrite IH by assumption. reflexivity.
+Qed.
+
+Theorem css_roundtrip rs :
+  forallb is_scalar rs = true -> forallb (fun r => negb (r =? 0)) rs = true ->
+  css_unescape (css_escape rs) = rs.
+Proof.
+  intros H Hz. unfold css_unescape. rewrite utf8_decode_ascii by apply css_escape_ascii.
+  apply css_runes_roundtrip; assumption.
+Qed.
+
+(* the terminating space makes every escape self-delimiting, whatever follows *)
+Theorem css_no_swallow r1 r2 rest :
+  is_scalar r1 = true -> r1 <> 0 ->
+  css_unescape (css_tok r1 ++ css_escape (r2 :: rest))
+  = r1 :: css_unescape (css_escape (r2 :: rest)).
+Proof.
+  intros Hs Hz. unfold css_unescape, css_unescape_runes.
+  assert (Ha : forallb ascii_nz (css_tok r1 ++ css_escape (r2 :: rest)) = true)
+    by (rewrite forallb_app, css_tok_ascii, css_escape_ascii; reflexivity).
+  rewrite (utf8_decode_ascii _ Ha), (utf8_decode_ascii _ (css_escape_ascii (r2 :: rest))).
+  rewrite map_app. apply css_tok_dec; assumption.
+Qed.
+
+(* the same for an arbitrary ASCII continuation (e.g. text following the escaped value) *)
+Theorem css_no_swallow_any r tail :
+  is_scalar r = true -> r <> 0 ->
+  css_unescape_runes (map b2n (css_tok r) ++ tail) = r :: css_unescape_runes tail.
+Proof. intros Hs Hz. apply css_tok_dec; assumption. Qed.
+
+(* ------------------------------------------------------------------ *)
+(* CSS: alphabet                                                        *)
+(* ------------------------------------------------------------------ *)
+
+Lemma css_alpha_hex rest ds : forall n,
+  forallb is_hex ds = true -> (n + length ds <= 6)%nat -> (0 < n + length ds)%nat ->
+  css_alpha (Some n) (ds ++ " "%byte :: rest) = css_alpha None rest.
+Proof.
+  induction ds as [|d ds IH]; intros n Hh Hle Hpos.
+  - cbn [length] in Hpos. destruct n as [|n]; [lia|]. reflexivity.
+  - cbn [forallb] in Hh. apply andb_true_iff in Hh. destruct Hh as [Hd Hds].
+    cbn [length] in Hle, Hpos. cbn [app css_alpha]. rewrite Hd.
+    replace (Nat.ltb n 6) with true by (symmetry; apply Nat.ltb_lt; lia).
+    cbn [andb]. apply IH; [exact Hds| cbn; lia | cbn; lia].
+Qed.
+
+Lemma css_tok_alpha r rest : css_alpha None (css_tok r ++ rest) = css_alpha None rest.
+Proof.
+  unfold css_tok.
+  destruct (r =? 13); [reflexivity|]. destruct (r =? 10); [reflexivity|].
+  destruct (r =? 9); [reflexivity|]. destruct (r =? 0); [reflexivity|].
+  destruct (r =? 32); [reflexivity|].
+  destruct (is_alnum_r r) eqn:Hp.
+  { pose proof (alnum_r_lt r Hp) as [Hlo Hhi].
+    pose proof (sweep_css_plain (n2b r)) as S. rewrite b2n_n2b in S by lia. rewrite Hp in S.
+    cbn [implb] in S. apply andb_true_iff in S. destruct S as [S1 S2]. apply negb_true_iff in S1.
+    cbn [app css_alpha]. rewrite S1, S2. reflexivity. }
+  cbn [app css_alpha]. change (beqb BSL x5c) with true. cbv iota.
+  rewrite <- app_assoc. cbn [app].
+  pose proof (hex_lo_length r) as Hlen.
+  apply css_alpha_hex.
+  - exact (forallb_impl _ _ _ lo_hex_is_hex (hex_lo_all_lo_hex r)).
+  - rewrite Hlen. repeat match goal with |- context [if ?c then _ else _] => destruct c end; cbn; lia.
+  - rewrite Hlen. repeat match goal with |- context [if ?c then _ else _] => destruct c end; cbn; lia.
+Qed.
+
+Theorem css_alphabet_ok rs :
+  forallb is_scalar rs = true -> css_alphabet (css_escape rs) = true.
+Proof.
+  intros _. unfold css_alphabet.
+  induction rs as [|r rs IH]; [reflexivity|].
+  unfold css_escape in *. cbn [flat_map]. rewrite css_tok_alpha. exact IH.
+Qed.
+
+(* ------------------------------------------------------------------ *)
+(* Iteration: n passes decode back with n decoding passes               *)
+(* ------------------------------------------------------------------ *)
+
+(* rune view of n escaping passes: each pass reads the runes of the previous
+   output, which is ASCII, i.e. its byte values *)
+Fixpoint js_layers (n : nat) (rs : list rune) : list rune :=
+  match n with O => rs | S k => js_layers k (map b2n (js_escape rs)) end.
+
+Fixpoint js_unescape_n (n : nat) (s : list rune) : option (list rune) :=
+  match n with
+  | O => Some s
+  | S k => match js_unescape_runes s with Some s' => js_unescape_n k s' | None => None end
+  end.
+
+Fixpoint css_layers (n : nat) (rs : list rune) : list rune :=
+  match n with O => rs | S k => css_layers k (map b2n (css_escape rs)) end.
+
+Fixpoint css_unescape_n (n : nat) (s : list rune) : list rune :=
+  match n with O => s | S k => css_unescape_n k (css_unescape_runes s) end.
+
+Lemma js_layers_S n rs : js_layers (S n) rs = map b2n (js_escape (js_layers n rs)).
+Proof. revert rs; induction n as [|n IH]; intros rs; [reflexivity|]. cbn [js_layers] in *. rewrite <- IH. reflexivity. Qed.
+
+Lemma css_layers_S n rs : css_layers (S n) rs = map b2n (css_escape (css_layers n rs)).
+Proof. revert rs; induction n as [|n IH]; intros rs; [reflexivity|]. cbn [css_layers] in *. rewrite <- IH. reflexivity. Qed.
+
+Lemma js_layers_scalar n rs :
+  forallb is_scalar rs = true -> forallb is_scalar (js_layers n rs) = true.
+Proof.
+  intros H. destruct n as [|n]; [exact H|].
+  rewrite js_layers_S. apply ascii_runes_scalar, js_escape_ascii.
+Qed.
+
+Theorem js_iter_roundtrip n : forall rs,
+  forallb is_scalar rs = true -> js_unescape_n n (js_layers n rs) = Some rs.
+Proof.
+  induction n as [|n IH]; intros rs H; [reflexivity|].
+  rewrite js_layers_S. cbn [js_unescape_n].
+  rewrite js_runes_roundtrip by (apply js_layers_scalar, H). apply IH, H.
+Qed.
+
+Lemma css_layers_ok n rs :
+  forallb is_scalar rs = true -> forallb nonzero rs = true ->
+  forallb is_scalar (css_layers n rs) = true /\ forallb nonzero (css_layers n rs) = true.
+Proof.
+  intros H Hz. destruct n as [|n]; [split; assumption|].
+  rewrite css_layers_S. split.
+  - apply ascii_runes_scalar, css_escape_ascii.
+  - apply ascii_runes_nonzero, css_escape_ascii.
+Qed.
+
+Theorem css_iter_roundtrip n : forall rs,
+  forallb is_scalar rs = true -> forallb (fun r => negb (r =? 0)) rs = true ->
+  css_unescape_n n (css_layers n rs) = rs.
+Proof.
+  induction n as [|n IH]; intros rs H Hz; [reflexivity|].
+  rewrite css_layers_S. cbn [css_unescape_n].
+  destruct (css_layers_ok n rs H Hz) as [L1 L2].
+  rewrite css_runes_roundtrip by assumption. apply IH; assumption.
+Qed.
+
+(* the layers are what the modifiers compute: the runes of the rendered bytes *)
+Theorem mod_js_layers itr s :
+  utf8_decode (mod_js_escape itr s) = js_layers (Z.to_nat itr) (utf8_decode s).
+Proof.
+  unfold mod_js_escape. generalize (Z.to_nat itr) as n. intros n. revert s.
+  induction n as [|n IH]; intros s; [reflexivity|].
+  cbn [repeat_app js_layers]. rewrite IH. unfold js_escape_bytes.
+  rewrite utf8_decode_ascii by apply js_escape_ascii. reflexivity.
+Qed.
+
+Theorem mod_css_layers itr s :
+  utf8_decode (mod_css_escape itr s) = css_layers (Z.to_nat itr) (utf8_decode s).
+Proof.
+  unfold mod_css_escape. generalize (Z.to_nat itr) as n. intros n. revert s.
+  induction n as [|n IH]; intros s; [reflexivity|].
+  cbn [repeat_app css_layers]. rewrite IH. unfold css_escape_bytes.
+  rewrite utf8_decode_ascii by apply css_escape_ascii. reflexivity.
+Qed.
+
+(* ------------------------------------------------------------------ *)
+(* Byte level: `range` over any byte string delivers scalar values only *)
+(* ------------------------------------------------------------------ *)
+
+Ltac scalar_tail IH :=
+  cbn [forallb]; rewrite IH by (cbn [length] in *; lia); rewrite andb_true_r;
+  first [reflexivity | unfold is_scalar, btw in *; lia].
+
+Lemma utf8_decode_scalar_aux n : forall s, (length s <= n)%nat ->
+  forallb is_scalar (utf8_decode s) = true.
+Proof.
+  induction n as [|n IH]; intros s Hl.
+  { destruct s; [reflexivity|cbn [length] in Hl; lia]. }
+  destruct s as [|b0 t0]; [reflexivity|]. cbn [length] in Hl.
+  pose proof (b2n_lt b0) as B0.
+  cbn [utf8_decode].
+  destruct (b2n b0 <? 128) eqn:E0; [scalar_tail IH|].
+  destruct (btw 194 223 (b2n b0)) eqn:E1.
+  { destruct t0 as [|b1 t1]; [reflexivity|].
+    destruct (btw 128 191 (b2n b1)) eqn:E2; scalar_tail IH. }
+  destruct (btw 224 239 (b2n b0)) eqn:E2.
+  { destruct t0 as [|b1 [|b2 t2]]; [reflexivity|scalar_tail IH|].
+    destruct (b2n b0 =? 224) eqn:F1; destruct (b2n b0 =? 237) eqn:F2;
+    match goal with |- context [if ?c then _ else _] => destruct c eqn:E3 end; scalar_tail IH. }
+  destruct (btw 240 244 (b2n b0)) eqn:E3.
+  { destruct t0 as [|b1 [|b2 [|b3 t3]]]; [reflexivity|scalar_tail IH|scalar_tail IH|].
+    destruct (b2n b0 =? 240) eqn:F1; destruct (b2n b0 =? 244) eqn:F2;
+    match goal with |- context [if ?c then _ else _] => destruct c eqn:E4 end; scalar_tail IH. }
+  scalar_tail IH.
+Qed.
+
+Theorem utf8_decode_scalar s : forallb is_scalar (utf8_decode s) = true.
+Proof. exact (utf8_decode_scalar_aux (length s) s (le_n _)). Qed.
+
+(* byte-level forms: for EVERY input byte string the JS escaper decodes back to
+   the runes Go's range loop saw *)
+Theorem js_bytes_roundtrip s : js_unescape (js_escape_bytes s) = Some (utf8_decode s).
+Proof. apply js_roundtrip, utf8_decode_scalar. Qed.
+
+Theorem js_bytes_alphabet s : js_alphabet (js_escape_bytes s) = true.
+Proof. apply js_alphabet_ok, utf8_decode_scalar. Qed.
+
+Theorem css_bytes_alphabet s : css_alphabet (css_escape_bytes s) = true.
+Proof. apply css_alphabet_ok, utf8_decode_scalar. Qed.
+
+Theorem mod_js_roundtrip itr s :
+  js_unescape_n (Z.to_nat itr) (utf8_decode (mod_js_escape itr s)) = Some (utf8_decode s).
+Proof. rewrite mod_js_layers. apply js_iter_roundtrip, utf8_decode_scalar. Qed.
+
+Theorem mod_css_roundtrip itr s :
+  forallb (fun r => negb (r =? 0)) (utf8_decode s) = true ->
+  css_unescape_n (Z.to_nat itr) (utf8_decode (mod_css_escape itr s)) = utf8_decode s.
+Proof. intros Hz. rewrite mod_css_layers. apply css_iter_roundtrip; [apply utf8_decode_scalar|exact Hz]. Qed.
+
+(* NUL is the one value CSS cannot carry: the escaper writes backslash 0 space, which denotes U+FFFD *)
+Lemma css_nul_not_representable : css_unescape (css_escape [0]) = [rune_error].
+Proof. reflexivity. Qed.
